@@ -29,6 +29,8 @@ type pStore struct {
 	calls   int
 	faultAt int // -1: never
 	fired   bool
+	// failing: every store call fails (an outage that lasts), whatever faultAt says
+	failing bool
 	// lazy faults: fail the record's Data()/ReadDirNames() evaluation instead of the store call
 	faultLazy bool
 	// ownCopy: the store keeps its own copy of a file's bytes, as a remote store does (Set copies in, Data
@@ -50,6 +52,10 @@ func (s *pStore) find(path string) int {
 func (s *pStore) fault() bool {
 	i := s.calls
 	s.calls++
+	if s.failing {
+		s.fired = true
+		return true
+	}
 	if i == s.faultAt && !s.faultLazy {
 		s.fired = true
 		return true
